@@ -154,6 +154,7 @@ class World:
         self.history = []           # actual refinements (dict level -> sorted list of cells)
         self.requests = []          # the refinement calls as issued (for the fresh-replay coherence oracle)
         self.nqueries = 0
+        self.nondefault_marking = False
         self.snapshots = []         # (hs deep copy, model copy, step)
         self.originals = []         # (hs original before copy(), model copy, truncate flag)
         self.nrefine = 0
@@ -216,13 +217,20 @@ def containerise(marks, kinds):
     return out
 
 
-def do_refine(w, marks, kinds, via='refine', region=None):
+def do_refine(w, marks, kinds, via='refine', region=None, mark_truncate=False):
     ctx, hs, m = w.ctx, w.hs, w.model
+    if mark_truncate:
+        # refine(marked, truncate=True): the THB-admissible (smaller) marking neighbourhood.  Not the default
+        # marking, so the property's HB disparity clause is not demanded from here on; everything else is.
+        w.nondefault_marking = True
     before_active = {l: set(m.active_cells(l)) for l in range(m.L + 1)}
     arg = containerise(marks, kinds)
     if via == 'refine':
-        w.requests.append(('refine', containerise(marks, kinds)))
-        ret = ctx.call('refine', hs.refine, arg)
+        w.requests.append(('refine', containerise(marks, kinds), mark_truncate))
+        if mark_truncate:
+            ret = ctx.call('refine', hs.refine, arg, truncate=True)
+        else:
+            ret = ctx.call('refine', hs.refine, arg)
     else:
         lv, pred = region
         w.requests.append(('region', lv, pred))
@@ -329,7 +337,7 @@ def check_c04(w, deep=True):
               and hs.total_active_cells == len(exp_c), 'counts', 'numdofs/numactive/total_active_cells', w.sig(what='order'))
     # --- admissibility for finite disparity
     d = cfg['disparity']
-    if d != np.inf:
+    if d != np.inf and not w.nondefault_marking:
         for k in range(m.L):
             act_k = m.functions(k)[0]
             if not act_k:
@@ -545,7 +553,7 @@ def coherence_check(w):
     fresh = hierarchical.HSpace(w.kvs, truncate=cfg['truncate'], disparity=cfg['disparity'], bdspecs=cfg['bdspecs'])
     for rq in w.requests:
         if rq[0] == 'refine':
-            fresh.refine(rq[1])
+            fresh.refine(rq[1], truncate=True) if rq[2] else fresh.refine(rq[1])
         else:
             fresh.refine_region(rq[1], rq[2])
     fresh.truncate = hs.truncate
@@ -629,7 +637,11 @@ def run_case(ctx):
                 ctx.count('op.refine.multilevel')
             if w.queried_since_refine:
                 ctx.count('probe.refine.after.cache.fill')
-            if not do_refine(w, marks, kinds):
+            mt = bool(cfg['disparity'] != np.inf and o.chance(20))
+            if mt:
+                ctx.trace[-1].append('mark-truncate')
+                ctx.count('op.refine.mark-truncate')
+            if not do_refine(w, marks, kinds, mark_truncate=mt):
                 return
         elif op == 'refine_region':
             levels = [l for l in range(min(m.L, cfg['maxlevel'])) if m.active_cells(l)]
